@@ -221,7 +221,7 @@ class Sim:
     def decisions(self):
         out = {"policy": "forced", "pre": list(self.rec_pre),
                "choices": {str(k): v for k, v in self.rec_choices.items()}}
-        for key in ("timer_slack", "sleep_slack", "stall"):
+        for key in ("timer_slack", "sleep_slack", "stall", "start_handoff"):
             # options that decide WHICH choices are asked for: a forced replay needs them to line the indices up
             if key in self.sched:
                 out[key] = self.sched[key]
@@ -595,6 +595,12 @@ def _patched_start(self):
 
     self.run = _run
     _ORIG_START(self)
+    if sim.sched.get("start_handoff") and sim.current is not None and sim.current.real is _rt.current_thread():
+        # whether the new thread or its creator runs first is the operating system's call: a recorded choice
+        handoff = sim.sched["start_handoff"]
+        if sim.choose_rare("thread_start", 1, 0.5 if handoff is True else float(handoff)):
+            sim.count("started_thread_ran_first")
+            sim.yield_point()
     return None
 
 
